@@ -239,15 +239,19 @@ def finish(rep, ctx, meta, replay_key=None):
     """prints the report, writes evidence + replays, returns exit code"""
     pid = rep.pid
     floors = load_floors().get(pid, {})
-    for name, floor in floors.items():
-        n = rep.counts.get(name)
-        if n is None or n < floor:
-            raise CheckerError('instance count %s=%s fell below the floor %s counted on the pinned tree '
-                               '(a rule that matches nothing passes vacuously)' % (name, n, floor))
     known = load_known()
     kmap = {f['key']: f for f in known.get('findings', []) if f['property'] == pid}
     viols = rep.violations()
     new = [v for v in viols if v['key'] not in kmap]
+    for name, floor in floors.items():
+        n = rep.counts.get(name)
+        if n is None or n < floor:
+            msg = ('instance count %s=%s fell below the floor %s counted on the pinned tree '
+                   '(a rule that matches nothing passes vacuously)' % (name, n, floor))
+            if not new:
+                raise CheckerError(msg)
+            # the rule whose instances vanished reports that itself below: a violation, not a checker failure
+            rep.note(msg)
     old = [v for v in viols if v['key'] in kmap]
     stale = [k for k in kmap if k not in {v['key'] for v in viols}]
 
